@@ -264,8 +264,13 @@ type TraitInstance struct {
 	value        string
 	variableName string // optional; will be used if exists.
 
+	// keyType and keyValue are the type and the exact value of the constant as it is written on
+	// the definition line, i.e. of the key it contributes to the Parse switch.
+	keyType  types.Type
+	keyValue string
+
 	// repeatsParseKey is set when an earlier parsable trait of the same enum value
-	// is written with the same constant text (see validateParsableTraits).
+	// is written with an equal constant of the same type (see validateParsableTraits).
 	repeatsParseKey bool
 }
 
